@@ -3,9 +3,9 @@ import os, json, random
 from infra import *
 import pdu, can, vss
 
-def impl_cfg(qs, offs, ws, memhost, branch, invs=("T7", "HostIndependent")):
-    t = "SPECIFICATION Spec\nCONSTANTS\n  Qs = {%s}\n  Offs = {%s}\n  Ws = {%s}\n  MemHost = \"%s\"\n  Branch = \"%s\"\nCONSTRAINT Emit\nCHECK_DEADLOCK FALSE\n" % (
-        ",".join(map(str, qs)), ",".join(map(str, offs)), ",".join(map(str, ws)), memhost, branch)
+def impl_cfg(qs, offs, ws, memhost, branch, invs=("T7", "HostIndependent"), bigqs=()):
+    t = "SPECIFICATION Spec\nCONSTANTS\n  Qs = {%s}\n  Offs = {%s}\n  Ws = {%s}\n  MemHost = \"%s\"\n  Branch = \"%s\"\n  BigQs = {%s}\nCONSTRAINT Emit\nCHECK_DEADLOCK FALSE\n" % (
+        ",".join(map(str, qs)), ",".join(map(str, offs)), ",".join(map(str, ws)), memhost, branch, ",".join(map(str, bigqs)))
     for i in invs: t += "INVARIANT %s\n" % i
     return t
 
@@ -27,6 +27,7 @@ def raw_replay(v, ex, vectors, rnd, tag, places=None):
         t = line.split()
         status, ret, post, canary = t[1], t[2], t[5], t[6]
         key = "%s raw op=%s off=%d w=%d" % (tag, vec["op"], vec["off"], vec["w"])
+        if status == "skipped": continue
         if status != "ok":
             v.violation(key + " kind=fault", "raw descriptor (q=%d, off=%d, bits=%d) %s: %s" % (vec["q"], vec["off"], vec["w"], vec["op"], status), {"vector": vec}); bad += 1; continue
         if post != hexs(vec["post"]) or (vec["op"] == "get" and ret != hexs(vec["ret"])) or canary != "0":
